@@ -5,7 +5,7 @@ CONSTANTS
   Slot2Places = {"direct", "wrapped", "nested"}
   Slot2Sigs = {"none", "own", "copied", "att", "attIdp"}
   RIds = {"r1", "rX", "a1"}
-  RSigs = {"none", "att", "attIdp", "gen", "lifted"}
+  RSigs = {"none", "att", "attIdp", "gen", "lifted", "reloc", "malformed"}
   KidSigs = {"none", "own", "copied", "att", "attIdp"}
 POSTCONDITION TraceAccepted
 CHECK_DEADLOCK FALSE
